@@ -455,6 +455,34 @@ def main(tier):
     n_rnd, size = (6000, 5) if tier == "quick" else (150000, 6)
     rnd = [random_tree(rng, rng.randint(2, size), descs) for _ in range(n_rnd)]
     run_stream(chk, "json/random", rnd, thunks, stats, samples)
+    # 4. the json command of main.py (an anchor of C18): what it prints is the JSON of the tree it parsed, for every expression,
+    #    constants at the root included (judged by C20's reference reader, no model involved)
+    from . import c20
+
+    words = ["false", "true", "(false)", "(true)", "~false", "~true", "a", "~a", "false & a", "a | false", "false ^ true", "true & false", "(false) | (false)", "~(false)", "foo & ~bar | false"]
+    leaves = ["a", "b", "true", "false"]
+    for _ in range(150 if tier == "quick" else 1500):
+        n = rng.randint(1, 4)
+        w = rng.choice(leaves)
+        for _k in range(n):
+            op = rng.choice(["&", "|", "^"])
+            r = rng.choice(leaves)
+            if rng.random() < 0.3:
+                r = "~" + r
+            w = f"({w}) {op} {r}" if rng.random() < 0.5 else f"{r} {op} ({w})"
+        words.append(w)
+    cdis = 0
+    for w in words:
+        res = c20.run_cli("json", False, w)
+        if res.get("runner_error"):
+            continue
+        bad = c20.judge("json", False, w, res)
+        stats["cli-json"] += 1
+        if bad is not None:
+            cdis += 1
+            chk.add_failure({"cmd": "json", "optimize": False, "text": w}, {**bad, "stdout": res["out"][:200], "stderr": res["err"][:200], "exit": res["exit"]}, None)
+    chk.evaluations += len(words)
+    chk.extra["cli_json_invocations"] = len(words)
     chk.rule = (
         "(1) each of %d atoms alone = pool.atom_thunks (every exported constructor at 2-4 parameter choices) + every Predicate object in predicate.__all__ + fn_p over "
         "%d kinds of callable (lambda, def, functools.wraps, built-in, method descriptor, bound method, class, partial, callable object) + ne_p over %d constants "
@@ -462,7 +490,7 @@ def main(tier):
         "(2) bounded-exhaustive: all trees with <= %d nodes over {&,|,^,~,all_p,any_p} and %d representative atoms, one per JSON-distinguishable kind (%d trees); "
         "(3) %d random trees of <= %d nodes over all atoms.  Trees are built with the user-facing operators.  Each case: model toJson vs to_json (structural, "
         "dictionaries as unordered maps, bool/int distinguished, constants by code, function names by the harness table), model shapeP vs the nesting read off the real JSON, "
-        "model serialisable vs json.dumps; and the property judged on the real objects.  non-trivial = distinct renderings with at least one connective."
+        "model serialisable vs json.dumps; and the property judged on the real objects; (4) main.py's json command on constants, names and random small expressions, its stdout read back and compared with the expression.  non-trivial = distinct renderings with at least one connective."
         % (len(descs), len(_FNS), len(_NE_CONSTS), len(_VAR_NAMES), len(ctx), n_ex, n_rep, len(ex), n_rnd, size)
     )
     chk.samples = samples
@@ -480,6 +508,14 @@ def replay(path):
     d = json.load(open(path))
     print(json.dumps({k: v for k, v in d.items() if k != "others"}, indent=1)[:2500])
     spec = d.get("input")
+    if d.get("kind") == "failing-input" and isinstance(spec, dict) and spec.get("cmd") == "json":
+        from . import c20
+
+        res = c20.run_cli("json", False, spec["text"])
+        bad = c20.judge("json", False, spec["text"], res)
+        print("main.py json", repr(spec["text"]), "->", res)
+        print("judged   :", bad or "stdout is the JSON of the expression")
+        return 1 if bad else 0
     if d.get("kind") != "failing-input" or not isinstance(spec, list):
         return 1
     thunks = dict(all_thunks())
